@@ -553,6 +553,15 @@ func c12(r *Report) propMeta {
 	svc := "client/grpc/oracle/proof.proofServer.Proof"
 	r.Exists("proof-for-oracle-store", svc, CallEff("proof.GetMultiStoreProof"), 1)
 	r.Exists("iavl-path-of-result-key", svc, CallEff("types.ResultStoreKey"), 1)
+	r.Rule("C12.R6", "E19 the ABI mirror of the result copies like to like")
+	pp := "client/grpc/oracle/proof."
+	r.SameNameFields("header-parts-mirror", pp+"BlockHeaderMerkleParts.encodeToEthFormat", "BlockHeaderMerklePartsEthereum", "client/grpc/oracle/proof.BlockHeaderMerkleParts", nil, 8)
+	r.SameNameFields("iavl-path-mirror", pp+"IAVLMerklePath.encodeToEthFormat", "IAVLMerklePathEthereum", "client/grpc/oracle/proof.IAVLMerklePath", nil, 5)
+	r.SameNameFields("multistore-mirror", pp+"MultiStoreProof.encodeToEthFormat", "MultiStoreProofEthereum", "client/grpc/oracle/proof.MultiStoreProof", nil, 5)
+	r.SameNameFields("vote-part-mirror", pp+"CommonEncodedVotePart.encodeToEthFormat", "CommonEncodedVotePartEthereum", "client/grpc/oracle/proof.CommonEncodedVotePart", nil, 2)
+	r.SameNameFields("signature-mirror", pp+"TMSignature.encodeToEthFormat", "TMSignatureEthereum", "client/grpc/oracle/proof.TMSignature", nil, 4)
+	r.SameNameFields("result-mirror", "client/grpc/oracle/proof.transformResult", "ResultEthereum", "x/oracle/types.Result", map[string]string{"Params": "Calldata"}, 11)
+
 	r.Rule("C12.R5", "IAVL node header parsing: chained varint offsets")
 	r.VarintChainPkg("node-header", "client/grpc/oracle/proof.", 3)
 	gm := "client/grpc/oracle/proof.GetMerklePaths"
@@ -563,7 +572,7 @@ func c12(r *Report) propMeta {
 		Decided: []string{
 			"R1 the Merkle path of the `oracle` leaf among the constant store names passed to NewKVStoreKeys (sorted, RFC-6962 split) has exactly the depth and left/right pattern GetMultiStoreProof hard-codes (Path[i].Prefix[1:] vs .Suffix), recomputed on every run: adding/removing/renaming a store that moves the leaf fails the check",
 			"R2 the five hashed header parts are contiguous, tree-aligned runs of cometbft Header.Hash's leaf list (read from the dependency source) and the uncovered leaves are exactly Height, Time, AppHash",
-			"R5 (sibling bytes) the sibling hash is taken from the Suffix without its LEADING length marker (Suffix[1:]) when the proven node is the left child, and from the Prefix after the node header and child marker without its TRAILING marker (Prefix[n+1:len-1]) when it is the right child - whether written inline or in a private helper (seed C12-3 trimmed the wrong end of the suffix)", "R5 IAVL node headers are parsed as a chain of varints (height, size, version), the k-th starting at the sum of all previous lengths; side decided by comparing the header length + 1 with the prefix length", "R3 the literal bytes 34,10,18,42,50 equal (field<<3|2) for the field numbers in cometbft's CanonicalVote/CanonicalBlockID struct tags; 32 and 72 follow from the fixed sizes; only BlockIDFlagCommit votes are used and the recovered address must equal the vote's validator address",
+			"R6 transformResult fills each of the eleven fields of the ABI-encoded result from the field of the same name of the stored oracle result (Params from Calldata) and from no other field: the bridge re-encodes these fields to rebuild the leaf (seed C12-5 took AnsCount from AskCount)", "R5 (sibling bytes) the sibling hash is taken from the Suffix without its LEADING length marker (Suffix[1:]) when the proven node is the left child, and from the Prefix after the node header and child marker without its TRAILING marker (Prefix[n+1:len-1]) when it is the right child - whether written inline or in a private helper (seed C12-3 trimmed the wrong end of the suffix)", "R5 IAVL node headers are parsed as a chain of varints (height, size, version), the k-th starting at the sum of all previous lengths; side decided by comparing the header length + 1 with the prefix length", "R3 the literal bytes 34,10,18,42,50 equal (field<<3|2) for the field numbers in cometbft's CanonicalVote/CanonicalBlockID struct tags; 32 and 72 follow from the fixed sizes; only BlockIDFlagCommit votes are used and the recovered address must equal the vote's validator address",
 		},
 		Undecided: []string{"IAVL proof values over all tree shapes beyond the varint-offset chain", "signature recovery itself", "one-byte length prefixes holding for long chain ids / part-set totals >= 128"},
 		Assume:    []string{"rootmulti commits exactly the mounted IAVL KV stores (transient and memory stores are excluded)", "cometbft source in the module cache is what the node runs"},
